@@ -144,7 +144,7 @@ class Run(object):
                 with open(path, 'w') as f:
                     json.dump({'property': self.prop, 'signature': sig, 'case': case}, f, indent=1, default=str)
                 if shown < 10:
-                    print('VIOLATION property=%s replay=%s' % (self.prop, path))
+                    print('%s property=%s replay=%s' % ('EXTENSION-MISMATCH' if self.prop == 'EXT' else 'VIOLATION', self.prop, path))
                     print('  ' + json.dumps(sig, default=str)[:600])
                     shown += 1
             for hk, n in sorted(self.sig_hist.items(), key=lambda kv: -kv[1])[:40]:
